@@ -63,6 +63,7 @@ var watchedImports = map[string]bool{"time": true, "math/rand": true, "math/rand
 var modelledFuncs = map[string]map[string]bool{
 	"cmd/wuffs/main.go":      {"listDir": true, "appendDir": true, "findFiles": true, "findFiles1": true},
 	"lang/ast/sort.go":       {"TopologicalSortStructs": true, "tssVisit": true},
+	"lang/token/list.go":     {"(QQID).LessThan": true},
 	"cmd/wuffs-c/release.go": {"(genReleaseHelper).gen": true, "parseIncludes": true, "(genReleaseHelper).parse": true},
 	"cmd/wuffs/gen.go":       {"(genHelper).gen": true, "(genHelper).genDirDependencies": true},
 	"cmd/wuffs/release.go":   {"genreleaseLang": true},
